@@ -641,11 +641,55 @@ class A64(Machine):
             self.violations.append("memory access through sp while the stack pointer is not 16-byte aligned (sp=0x%x)" % base)
         return (base + (int(m.group(2), 0) if m.group(2) else 0)) & ((1 << 64) - 1)
 
+    def memaddr_wb(self, s):
+        """Address of a load / store operand, with the pre- / post-index forms: returns (address, base register name or None, new base)."""
+        t = s.strip().replace(" ", "")
+        m = re.match(r"^\[(\w+),#?(-?\w+)\]!$", t)
+        if m:
+            base, _ = self.get(m.group(1))
+            a = (base + int(m.group(2), 0)) & ((1 << 64) - 1)
+            if m.group(1).lower() == "sp" and a % 16:
+                self.violations.append("memory access through sp while the stack pointer is not 16-byte aligned (sp=0x%x)" % a)
+            return a, m.group(1), a
+        m = re.match(r"^\[(\w+)\],#?(-?\w+)$", t)
+        if m:
+            base, _ = self.get(m.group(1))
+            if m.group(1).lower() == "sp" and base % 16:
+                self.violations.append("memory access through sp while the stack pointer is not 16-byte aligned (sp=0x%x)" % base)
+            return base, m.group(1), (base + int(m.group(2), 0)) & ((1 << 64) - 1)
+        return self.memaddr(s), None, None
+
     def step(self, mn, o, here):
-        if mn in ("eor", "and", "orr", "bic", "add", "sub"):
+        if mn in ("eor", "and", "orr", "bic", "add", "sub", "eon", "orn"):
             a, b = self.get(o[1])
             v2 = self.op2(o[2:]) & ((1 << b) - 1)
-            self.put(o[0], {"eor": a ^ v2, "and": a & v2, "orr": a | v2, "bic": a & ~v2, "add": a + v2, "sub": a - v2}[mn])
+            self.put(o[0], {"eor": a ^ v2, "and": a & v2, "orr": a | v2, "bic": a & ~v2, "add": a + v2, "sub": a - v2, "eon": a ^ ~v2, "orn": a | ~v2}[mn])
+        elif mn in ("lsl", "lsr", "asr"):
+            a, b = self.get(o[1])
+            t = o[2].strip()
+            n = (self.imm(t) if (t.startswith("#") or re.match(r"^-?\d", t)) else self.get(t)[0]) % b
+            if mn == "lsl":
+                v = a << n
+            elif mn == "lsr":
+                v = a >> n
+            else:
+                v = (a - (1 << b) if a >> (b - 1) else a) >> n
+            self.put(o[0], v)
+        elif mn == "tst":
+            a, b = self.get(o[0])
+            self.z = 1 if (a & self.op2(o[1:])) & ((1 << b) - 1) == 0 else 0
+        elif mn in ("cbz", "cbnz"):
+            a, b = self.get(o[0])
+            if (a == 0) == (mn == "cbz"):
+                return self.jump_label(o[1], here)
+        elif mn in ("uxtb", "uxth", "uxtw"):
+            a, _ = self.get(o[1])
+            self.put(o[0], a & {"uxtb": 0xFF, "uxth": 0xFFFF, "uxtw": 0xFFFFFFFF}[mn])
+        elif mn == "extr":
+            a, b = self.get(o[1])
+            c, _ = self.get(o[2])
+            n = self.imm(o[3]) % b
+            self.put(o[0], ((a << b) | c) >> n)
         elif mn == "ror":
             a, b = self.get(o[1])
             self.put(o[0], ror(a, self.imm(o[2]), b))
@@ -671,21 +715,38 @@ class A64(Machine):
                 self.put(o[0], self.imm(o[1]))
             else:
                 _, b = self.reg(o[0])
-                self.put(o[0], self.load(self.memaddr(",".join(o[1:])), b // 8))
+                a, wb, nb = self.memaddr_wb(",".join(o[1:]))
+                if wb and a != nb:
+                    self.put(wb, nb)           # post-index: the access uses the old base
+                    self.put(o[0], self.load(a, b // 8))
+                else:
+                    if wb:
+                        self.put(wb, nb)
+                    self.put(o[0], self.load(a, b // 8))
         elif mn == "str":
             v, b = self.get(o[0])
-            self.store(self.memaddr(",".join(o[1:])), b // 8, v)
+            a, wb, nb = self.memaddr_wb(",".join(o[1:]))
+            if wb:
+                self.put(wb, nb)               # sp moves before the store so that the frame check sees the new frame
+            self.store(a, b // 8, v)
         elif mn == "ldp":
-            a = self.memaddr(",".join(o[2:]))
+            a, wb, nb = self.memaddr_wb(",".join(o[2:]))
             _, b = self.reg(o[0])
-            self.put(o[0], self.load(a, b // 8))
-            self.put(o[1], self.load(a + b // 8, b // 8))
+            v0, v1 = self.load(a, b // 8), self.load(a + b // 8, b // 8)
+            if wb:
+                self.put(wb, nb)
+            self.put(o[0], v0)
+            self.put(o[1], v1)
         elif mn == "stp":
-            a = self.memaddr(",".join(o[2:]))
+            a, wb, nb = self.memaddr_wb(",".join(o[2:]))
             v0, b = self.get(o[0])
             v1, _ = self.get(o[1])
+            if wb and nb <= a:
+                self.put(wb, nb)               # pre-decrement: the frame exists before it is written
             self.store(a, b // 8, v0)
             self.store(a + b // 8, b // 8, v1)
+            if wb and nb > a:
+                self.put(wb, nb)
         elif mn == "ret":
             return self.jump_addr(self.x[30])
         else:
